@@ -81,4 +81,16 @@ META = {
         "text": "Every mutator's return values equal the machine's; the managed function is entered exactly by the instances the machine starts (success never re-run except by RestartRoutine/new routine; failure re-run by RestartRoutine, SetContext(restart) or the back-off timer at exactly t+b); NextBackOff/Reset call counts equal the machine's; current exits are reported exactly once to each exit callback; WaitExited returns exactly what was returnable at its last look and is never blocked at quiescence while returnable.",
         "note": "A pending retry dropped by SetContext(other,false)/ClearContext follows the code (not asserted either way); exits of instances superseded by SetRoutine may be reported to callbacks (0 or 1 times).",
     },
+    "C06": {
+        "engine": "E2 sequential histories in virtual time", "design_ref": "DESIGN.md §4 C06",
+        "technique": "model-based stateful PBT in virtual time: key-set reference model with exact removal deadlines; every return value and a full read-back compared after every step",
+        "text": "Keyed and KeyedRefCount machines over 1..6 keys with and without release delay; AdvanceTime offsets straddle the delay (99/100/101 ms). After every operation and time advance GetKeys, GetKey for the whole universe and GetKeysWithData equal the model, as do existed/added/removed/data return values and the number of constructor calls.",
+        "note": "ResetRoutine is not generated here (it re-creates the record and drops a pending removal; property silent). Routines finish promptly (scripted kinds).",
+    },
+    "C07": {
+        "engine": "E2/E1 controlled scheduler with scripted routines", "design_ref": "DESIGN.md §4 C07",
+        "technique": "model-based stateful PBT with generated schedule: per-key reference machine advanced in mutex-section grant order, instance goroutines bound to machine tokens at the keyed.exec hook, timer callbacks identified by hook",
+        "text": "Per key and incarnation no two instances execute at once; when a call returns every instance the machine says it removed/superseded/left without context has a cancelled context; instances enter the routine exactly when the machine starts them (start, restart, reset, back-off retry at exactly t+b), a retry that is due but never happens is reported, nothing runs for a removed key, back-off NextBackOff/Reset counts match.",
+        "note": "Overlap between a removed key's old routine and the routine of a re-added key is not asserted (new incarnation). Pending delayed removal across ResetRoutine follows the code.",
+    },
 }
